@@ -20,8 +20,10 @@ type c10Proc struct{ log []string }
 func (p *c10Proc) PrivateSend(dest int, data []byte) {
 	p.log = append(p.log, fmt.Sprintf("send %d %x", dest, data))
 }
-func (p *c10Proc) Broadcast(data []byte)        { p.log = append(p.log, fmt.Sprintf("bcast %x", data)) }
-func (p *c10Proc) Disqualify(i int, log string) { p.log = append(p.log, fmt.Sprintf("disqualify %d", i)) }
+func (p *c10Proc) Broadcast(data []byte) { p.log = append(p.log, fmt.Sprintf("bcast %x", data)) }
+func (p *c10Proc) Disqualify(i int, log string) {
+	p.log = append(p.log, fmt.Sprintf("disqualify %d", i))
+}
 func (p *c10Proc) FlagMisbehavior(i int, log string) {
 	p.log = append(p.log, fmt.Sprintf("flag %d", i))
 }
@@ -136,7 +138,7 @@ func TestC10_StateMachine(t *testing.T) {
 		if thorough() {
 			steps = g.Int("stepsMore", steps, 40)
 		}
-		bad := []int{-1, n, n + 1, 255, 256, 1 << 20, -1 << 31}
+		bad := []int{-1, n, n + 1, 255, 256, 1 << 20, -1 << 31, me + 256, me - 256, me + 512, dealer + 256, dealer - 256}
 		var trace []string
 		call := func(name string, want string, effective bool, f func(c *c10Inst) error) {
 			trace = append(trace, fmt.Sprintf("%s -> %s", name, want))
